@@ -43,6 +43,12 @@ prop("C04", stems=["SO2", "SE2", "Rn", "so3", "se3", "se23", "SO3Quat", "SO3Mrp"
      technique="Coq proof (ring/nsatz/field) over a model regenerated from source by a translator",
      explanation="adjoint and bracket identities for all group/algebra elements")
 
+prop("C18", stems=["Bezier"], props=["Props/C18.v"], falsify="falsify_C18",
+     level_text="Kernel-checked on the regenerated model: for degrees 1..7 (scalar) and 1..3 (3-vector) Bezier.eval equals the Bernstein polynomial for all control points, T <> 0 and t (inside or outside [0,T]); end points; the derivative curve is the exact time derivative (Coquelicot is_derive); deriv(m) equals m chained deriv() (pins the 1/T^m scaling); vector curves act row by row; bezier3_solve / bezier7_solve meet every boundary condition for all T <> 0; trajectory rows are successive exact derivatives; bezier_multirotor is the stacking of the scalar trajectories. Partial: 'for every degree n' is 'for n <= 7' (instances, no induction over n yet); degrees 8+ and dimensions other than 1 and 3 are covered by the numeric search only.",
+     level_note=GEN_NOTE + "Adds Classical_Prop.classic / Coquelicot's axioms through is_derive where reported.",
+     technique="Coq proof (field + Coquelicot auto_derive) over a model regenerated from source by a translator",
+     explanation="Bezier evaluation/derivative/solver identities for all control points, durations and times")
+
 prop("C16", stems=["Quadrotor"], props=["Props/C16.v"], falsify="falsify_C16",
      level_text="Kernel-checked theorems over the regenerated real-number model of quadrotor.derive_model(): q.qdot=0, quaternion and position kinematics, hover equilibrium, free-fall accelerometer, rotor-sum wrench (Euler and Newton equations), motor first-order law, translation and yaw equivariance, for ALL states, inputs and parameter vectors (parameters are symbolic). Not proved: the exponential closed-form motor response (only the ODE right-hand side), drag-on branch of the force sum.",
      level_note=GEN_NOTE + "Numeric search on the real functions (harness/falsify_C16.py) supports replay generation only.",
